@@ -150,17 +150,25 @@ class Coop:
 
 
 def record(fn):
-    """Line-event locations of one traced run of fn on the calling thread (no scheduling)."""
+    """Line-event locations of one traced run of fn on the calling thread (no scheduling).  Each event is
+    (file, line, function, id of the library call stack it happens under)."""
     locs = []
+    stack = []
+    sigs = {}
 
     def g(frame, event, arg):
         if frame.f_code.co_filename.startswith(LIB):
+            stack.append(frame.f_code.co_name)
             return l_
         return None
 
     def l_(frame, event, arg):
         if event == "line":
-            locs.append((frame.f_code.co_filename[len(LIB):], frame.f_lineno, frame.f_code.co_name))
+            sig = sigs.setdefault(tuple(stack), len(sigs))
+            locs.append((frame.f_code.co_filename[len(LIB):], frame.f_lineno, frame.f_code.co_name, sig))
+        elif event == "return":
+            if stack:
+                stack.pop()
         return l_
     sys.settrace(g)
     try:
